@@ -109,6 +109,34 @@ def run(ctx):
                                     "(the test-suite only ever runs one of them)", c.src_loc(n))
     rp.note("%d functions compared" % n_eq)
     rp.require(3000, "functions")
+    if ctx.tier == "thorough":
+        # the no_std build (default features off), both profiles: same program as the std build
+        rf = ctx.rule("R09-FEATURES", "thorough: every function of the no_std build (--no-default-features), debug and release, has the same "
+                      "normal form as in the default build: nothing on the parse path is selected by a feature")
+        fs2 = facts.load("nostd")
+        for tag in ("pest_typed.nostd", "pest_typed.nostd.rel"):
+            other = fs2.get(tag)
+            if other is None:
+                rf.violate(tag, "no facts for this build")
+                continue
+            n_ok = 0
+            for fid in sorted(c.bodies):
+                if "::tests::" in fid:
+                    continue
+                ob = other.body(fid)
+                if ob is None:
+                    rf.violate("%s: %s" % (tag, fid), "function missing in the no_std build", c.loc(c.body(fid)["value"].get("sp")))
+                    continue
+                na = CfgNorm(c).body(c.body(fid))
+                nb = CfgNorm(other).body(ob)
+                if na == nb:
+                    n_ok += 1
+                else:
+                    d = snf.first_diff(na, nb)
+                    rf.violate("%s: %s" % (tag, fid), "body differs between the default and the no_std build", d[0].loc,
+                               "default: %s\nno_std:  %s" % (d[0].show(), d[1].show()))
+            rf.inst(tag, None, "ok", {"functions_equal": n_ok})
+        rf.require(2, "builds")
 
     # ---- panic inventory
     rpn = ctx.rule("R09-PANIC", "every panic-capable site, debug assertion and raw usize subtraction reachable from the parse / check entry "
